@@ -26,6 +26,7 @@ func checkC07(c *Ctx) {
 		"single-fault type systems for every clause of gen.SchemaClauses, token-level mutations of the corpus. " +
 		"Non-trivial: the sources parse (the loader itself decides); distinct by the loader's observation (loaded schema or error)."
 	st := &LoadStats{Templates: map[string]int{}}
+	c.loadHistoryCheck() // gqlparser.LoadSchema after other loads in the same process = a fresh validator.LoadSchema
 	run := func(sets [][]string, expect []byte, labels []string) {
 		cases := c.corrLoad(sets, st)
 		for i := range cases {
